@@ -362,6 +362,20 @@ fn run_stream_inner(c: &StreamCase) -> Result<CaseReport, Stop> {
     let served;
     if c.tiny_writes {
         let h = std::thread::spawn(move || peer_reader(peer, plan, len));
+        // the peer keeps reading: a writer parked in an untimed wait while its own socket is
+        // writable waits for the wrong thing; it is released by making its socket "readable"
+        // (shutdown of the read half, which the transfer does not use)
+        let wfd2 = wfd;
+        let hw = HangWatch::start(
+            Duration::from_secs(4),
+            move || {
+                let mut p = libc::pollfd { fd: wfd2, events: libc::POLLOUT, revents: 0 };
+                unsafe { libc::poll(&mut p, 1, 0) == 1 && p.revents & libc::POLLOUT != 0 }
+            },
+            move || unsafe {
+                libc::shutdown(wfd2, libc::SHUT_RD);
+            },
+        );
         sc::verif::plan(rules);
         sc::verif::log_begin();
         let mut off = 0usize;
@@ -413,8 +427,12 @@ fn run_stream_inner(c: &StreamCase) -> Result<CaseReport, Stop> {
         log = sc::verif::log_end();
         served = sc::verif::forced_count();
         sc::verif::clear_plan();
+        let hung = hw.finish();
         drop(tiny); // closes: the peer sees EOF
         let out = h.join().expect("peer thread");
+        if let Some(wait) = hung {
+            return Err(stop_fail(format!("{ty}::write|never-completes|parked in an untimed wait although the socket is writable"), format!("a blocking write ({} of {len} bytes sent so far) sat in {wait} for seconds while poll(2) reported its socket writable and the peer kept reading; it went on only when the harness made the socket readable", off)));
+        }
         if out.err == Some(EAGAIN) {
             return Err(Stop::Inconclusive("peer reader hit the safety timeout".into()));
         }
